@@ -64,6 +64,17 @@ pub fn check(t: &Trace<'_>, out: &mut CaseOut) -> bool {
             out.violations.push(viol("C12", "C12/negotiated-values-left-over", format!("conn {}: after connect the session uses Maximum Packet Size {:?}, Maximum QoS {:?}, keep-alive {} ms; this CONNACK says {:?}, {:?}, {} ms", conn, a.maximum_packet_size, a.max_qos, a.keepalive_ms, want_mps, want_qos, want_ka)));
         }
         out.count("negotiated_values_compared", 1);
+        // ... and so is the keep-alive schedule: the first PINGREQ of this connection is due within
+        // this connection's keep-alive (and not before half of it), counted from the handshake;
+        // none is scheduled when keep-alive is off; no PINGREQ is considered outstanding
+        let (lo, hi) = (cop.t_call + want_ka * 1000 / 2, cop.t_ret + want_ka * 1000);
+        let ok = match a.next_ping {
+            None => want_ka == 0,
+            Some(np) => want_ka != 0 && np >= lo && np <= hi,
+        };
+        if !ok || a.ping_timeout.is_some() {
+            out.violations.push(viol("C12", "C12/keepalive-schedule-left-over", format!("conn {}: connect() ran from {} to {} and this CONNACK makes the keep-alive {} ms, yet afterwards the next PINGREQ is scheduled for {:?} and a PINGRESP is awaited until {:?}", conn, cop.t_call, cop.t_ret, want_ka, a.next_ping, a.ping_timeout)));
+        }
         // the send window after connect() is what this CONNACK grants minus what is in flight
         // (retained QoS 1/2 publishes, which will be replayed, and exchanges awaiting PUBCOMP)
         if let Some(p) = t.log.probes.iter().find(|p| p.ev > cop.ev_ret && p.snap.is_some()) {
